@@ -46,13 +46,29 @@ CLAIMED = {
     "C09": {"text": "DataType.check predicates over the live class lattice with symbolic widths, Engine.dtype resolution order for a generic engine (symbolic equivalents table), "
                     "engine-specific check/dtype entry points, and an exhaustive structural closure over every registered key of the numpy/pandas/polars/pyspark engines.",
             "note": COMMON_NOTE + "Parametrised constructors (time zones, units, categories, decimal precision) are bounded stand-ins (listed under bounded, not counted)."},
+    "C10": {"text": "The wrappers are proved: try_coerce (pandas, numpy) returns coerce's result, propagates/wraps errors into a ParserError carrying exactly the "
+                    "element-wise failure cases; numpy_pandas_coercible is element-wise 'coerce_value does not raise'; schema-level ParserError -> "
+                    "SchemaError(DATATYPE_COERCION) with the same failure cases; polars coercible/failure-case row algebra. The per-dtype casting behaviour "
+                    "(the heart of the property) is a library fact: covered only by a bounded run-time contract on the real try_coerce of the registered types.",
+            "note": COMMON_NOTE + "coerce / coerce_value of each data type are S-callbacks in the proofs; the non-strict polars cast is an uninterpreted 'castable' predicate. "
+                    "Bounded part: 40 (quick) / 400 (thorough) containers per data type, length <= 5."},
     "C11": {"text": "pandas drop_invalid_rows: rows(result) == rows whose label no collected error reports, for any number of errors (closed-form invariant), values/order kept; "
                     "polars: rows kept iff every row-aligned check output is true, for all frames and <= 3 errors; the call-site precondition (only row-attributable errors) "
                     "is refuted and listed.",
             "note": COMMON_NOTE + "MultiIndex label round trip through str/eval and reshape_failure_cases' 'index' column are not under contract."},
+    "C13": {"text": "The 14 check strategies are proved against the C01 spec functions (support of the result inside dtype domain and check meaning, chained or base) for "
+                    "int64/float64/str; field_element_strategy's chaining loop with the invariant support(elements) within the intersection of the checks seen; flag flow of the "
+                    "series/index/column assembly and schema strategy entry points; structural dispatcher table.",
+            "note": COMMON_NOTE + "hypothesis strategies are modelled by their support (pyvc/theories/hypothesis_lite.py); data_frames/multiindex assembly is a bounded stand-in."},
     "C14": {"text": "Statistics inference, statistics->checks, schema construction and the check serialisation pipeline are proved over all in-quantifier dtypes; lemma: the inferred "
                     "bounds admit the data and are attained.",
             "note": COMMON_NOTE + "pd.api.types.infer_dtype answers, float rounding monotonicity and the YAML text leg are assumed / bounded (see notes/C14.md)."},
+    "C15": {"text": "Every transformation method (pandas and polars schema classes) is proved per attribute (touched / untouched / schema-level / key order / no shared "
+                    "mutable state / receiver frame / error exits) for all attribute values over an enumerated family of dict shapes; inverse laws as two-operation programs.",
+            "note": COMMON_NOTE + "Dict shapes are enumerated (3 columns, 2-3 index levels, enumerated request lists): a bound of the claim; 'accepts exactly the transformed frames' is a bounded run-time contract."},
+    "C16": {"text": "Check/parser collection over an abstract MRO of unbounded depth (closed-form quantified invariants), to_check/to_parser, Field keyword dispatch, "
+                    "column/index properties, to_schema caching and parent frame; structural tables for the option wiring.",
+            "note": COMMON_NOTE + "_collect_fields (annotation parsing) is a bounded stand-in over generated hierarchies; config merge functions are covered only there."},
     "C17": {"text": "For 27 signature shapes (arity <= 3 plus *rest/**kw, sync and async) the real decorator factories and wrappers are symbolically executed for all argument "
                     "values, options and behaviours of schema.validate and the body: option forwarding, gate, transparency, designation independence.",
             "note": COMMON_NOTE + "The family of signature shapes is a bound of this claim; inspect/typing run natively on real function objects (see notes/C17.md)."},
